@@ -127,6 +127,21 @@ def handleCf (op : String) (args : List Sexp) : Option Sexp := do
               (idcStar (orderWorlds (← boolOf? rev) (← asNat? rot)) (orderDistrict d) (orderDistrict d) G o c))
         | _ => none
       pure (tagged "ok" rs)
+  | "idc_star_checked", [g, outs, conds, .list strategies] => do
+      -- as `idc_star_all`, preceded by the model's own verdict on the two fragments of Props/C08.lean
+      -- (`inFragmentCB`, `inFragmentXB`: canonical orders; they are about factual queries, where no order matters)
+      let G ← parseGraph g
+      let o ← eventOf? outs
+      let c ← eventOf? conds
+      let rs ← strategies.mapM fun s => match s with
+        | .list [rev, rot, drev] => do
+            let d ← boolOf? drev
+            pure (exceptToSexp Codec.exprToSexp
+              (idcStar (orderWorlds (← boolOf? rev) (← asNat? rot)) (orderDistrict d) (orderDistrict d) G o c))
+        | _ => none
+      let b := fun (x : Bool) => Sexp.atom (if x then "1" else "0")
+      pure (tagged "ok" (.list [.atom "frag", b (inFragmentCB sortWorlds (orderDistrict false) G o c),
+        b (inFragmentXB sortWorlds G o c)] :: rs))
   | "fscm_prob", [m, nu, ev] => do
       let r := Fscm.probEvent (← modelOf? m) (← baseValuesOf? nu) (← eventOf? ev)
       pure (tagged "ok" [.atom (toString r.num), .atom (toString r.den)])
